@@ -2,6 +2,7 @@ package sim
 
 import (
 	"encoding/hex"
+	"reflect"
 	"fmt"
 	"math/big"
 	"math/rand/v2"
@@ -969,110 +970,72 @@ func (e BridgeEngine) applyActorFault(r *Run, s *Step, o *Outcome) {
 	}
 }
 
-// mutateClaim changes exactly one field of a claim (Byzantine variants).
+// mutateClaim changes exactly one field of a claim (Byzantine variants). The field is named by
+// its Go struct field name and found by reflection, so a field added to a claim type later
+// is covered without editing the harness. val is the replacement for string fields; numeric
+// fields are incremented, booleans flipped, the first element of a slice is mutated.
 func mutateClaim(claim cctypes.ExternalClaim, field, val string) error {
-	switch m := claim.(type) {
-	case *cctypes.MsgSendToFxClaim:
-		switch field {
-		case "amount":
-			m.Amount = m.Amount.AddRaw(1)
-		case "receiver":
-			m.Receiver = val
-		case "token":
-			m.TokenContract = val
-		case "sender":
-			m.Sender = val
-		case "target":
-			m.TargetIbc = val
-		case "height":
-			m.BlockHeight++
-		default:
-			return fmt.Errorf("field")
+	rv := reflect.ValueOf(claim).Elem()
+	f := rv.FieldByName(field)
+	if !f.IsValid() || !f.CanSet() {
+		return fmt.Errorf("no field %s", field)
+	}
+	return mutateValue(f, val)
+}
+
+func mutateValue(f reflect.Value, val string) error {
+	switch f.Kind() {
+	case reflect.String:
+		if f.String() == val {
+			return fmt.Errorf("same value")
 		}
-	case *cctypes.MsgBridgeCallClaim:
-		switch field {
-		case "amount":
-			if len(m.Amounts) == 0 {
-				return fmt.Errorf("no amounts")
+		f.SetString(val)
+	case reflect.Uint64, reflect.Uint32:
+		f.SetUint(f.Uint() + 1)
+	case reflect.Int64, reflect.Int32:
+		f.SetInt(f.Int() + 1)
+	case reflect.Bool:
+		f.SetBool(!f.Bool())
+	case reflect.Slice:
+		if f.Len() == 0 {
+			return fmt.Errorf("empty slice")
+		}
+		return mutateValue(f.Index(0), val)
+	case reflect.Struct:
+		if i, ok := f.Addr().Interface().(*sdkmath.Int); ok {
+			if i.IsNil() {
+				*i = sdkmath.OneInt()
+			} else {
+				*i = i.AddRaw(1)
 			}
-			m.Amounts[0] = m.Amounts[0].AddRaw(1)
-		case "sender":
-			m.Sender = val
-		case "refund":
-			m.Refund = val
-		case "to":
-			m.To = val
-		case "data":
-			m.Data = val
-		case "memo":
-			m.Memo = val
-		case "tx_origin":
-			m.TxOrigin = val
-		case "value":
-			m.Value = m.Value.AddRaw(1)
-		case "height":
-			m.BlockHeight++
-		default:
-			return fmt.Errorf("field")
+			return nil
 		}
-	case *cctypes.MsgBridgeCallResultClaim:
-		switch field {
-		case "success":
-			m.Success = !m.Success
-		case "tx_origin":
-			m.TxOrigin = val
-		case "cause":
-			m.Cause = val
-		case "nonce":
-			m.Nonce++
-		case "height":
-			m.BlockHeight++
-		default:
-			return fmt.Errorf("field")
-		}
-	case *cctypes.MsgSendToExternalClaim:
-		switch field {
-		case "batch_nonce":
-			m.BatchNonce++
-		case "token":
-			m.TokenContract = val
-		case "height":
-			m.BlockHeight++
-		default:
-			return fmt.Errorf("field")
-		}
-	case *cctypes.MsgBridgeTokenClaim:
-		switch field {
-		case "symbol":
-			m.Symbol = val
-		case "name":
-			m.Name = val
-		case "decimals":
-			m.Decimals++
-		case "token":
-			m.TokenContract = val
-		case "channel":
-			m.ChannelIbc = val
-		case "height":
-			m.BlockHeight++
-		default:
-			return fmt.Errorf("field")
-		}
-	case *cctypes.MsgOracleSetUpdatedClaim:
-		switch field {
-		case "set_nonce":
-			m.OracleSetNonce++
-		case "power":
-			if len(m.Members) > 0 {
-				m.Members[0].Power++
+		// e.g. BridgeValidator{Power, ExternalAddress}: mutate its first settable field
+		for k := 0; k < f.NumField(); k++ {
+			if f.Field(k).CanSet() {
+				return mutateValue(f.Field(k), val)
 			}
-		case "height":
-			m.BlockHeight++
-		default:
-			return fmt.Errorf("field")
 		}
+		return fmt.Errorf("struct")
+	default:
+		return fmt.Errorf("kind %s", f.Kind())
 	}
 	return nil
+}
+
+// claimFields lists the mutable fields of a claim type (everything except the identity of
+// the claimer, the chain and the event nonce, which define *which* vote this is).
+func claimFields(claim cctypes.ExternalClaim) []string {
+	rt := reflect.TypeOf(claim).Elem()
+	var out []string
+	for i := 0; i < rt.NumField(); i++ {
+		n := rt.Field(i).Name
+		if n == "BridgerAddress" || n == "ChainName" || n == "EventNonce" || !rt.Field(i).IsExported() {
+			continue
+		}
+		out = append(out, n)
+	}
+	return out
 }
 
 func sortedKeys[V any](m map[string]V) []string {
